@@ -100,8 +100,18 @@ def text(v):
     return v if isinstance(v, str) else json.dumps(v)
 
 
+PREFIXES = [None, None, None, "report.v2", "my-app", "App", "x"]  # None = derived from prog ('app')
+
+
+def env_name(prefix, key):
+    """documented naming of environment variables"""
+    p = "app" if prefix is None else prefix
+    return ((p.replace("-", "_") + "_") + key).replace(".", "__").upper()
+
+
 def generate(rng, tier):
     r = rng
+    prefix = r.choice(PREFIXES)
     hot = r.sample(list(KEYS), r.randint(1, 3))
     files, dirs, symlinks, fifos = {}, ["home", "run", "dc"], {}, []
     dcf = []
@@ -151,11 +161,11 @@ def generate(rng, tier):
         st = rnd_settings(r, hot)
         if r.random() < 0.5:
             files["run/envcfg.yaml"] = json.dumps(doc(r, st))
-            env["APP_CFG"] = "envcfg.yaml"
+            env[env_name(prefix, "cfg")] = "envcfg.yaml"
         else:
-            env["APP_CFG"] = json.dumps(doc(r, st))
+            env[env_name(prefix, "cfg")] = json.dumps(doc(r, st))
     for k, v in rnd_settings(r, hot).items():
-        env["APP_" + k.replace(".", "__").upper()] = text(v)
+        env[env_name(prefix, k)] = text(v)
     argv = []
     for i in range(r.randint(0, 6)):
         c = r.random()
@@ -184,10 +194,10 @@ def generate(rng, tier):
     env_build = None
     if r.random() < 0.15:
         # environment at construction time differs from the one at parse time (individual variables only)
-        env_build = {k: text(rnd_val(r, "int")) for k in list(env) if k != "APP_CFG" and r.random() < 0.5}
-        env_build["APP_A"] = "77"
+        env_build = {k: text(rnd_val(r, "int")) for k in list(env) if k != env_name(prefix, "cfg") and r.random() < 0.5}
+        env_build[env_name(prefix, "a")] = "77"
     sc = {
-        "parser": {"default_env": r.random() < 0.5, "dcf": dcf},
+        "parser": {"default_env": r.random() < 0.5, "dcf": dcf, "env_prefix": prefix},
         "world": {"dirs": dirs, "files": files, "symlinks": symlinks, "fifos": fifos, "cwd": "run", "env": {}},
         "env": env,
         "env_build": env_build,
@@ -266,8 +276,9 @@ def dcf_sources(sc, root, cwd, order="sorted", listing=None):
 
 def env_sources(sc, env, cwd):
     cfgsrc, varsrc = [], []
+    prefix = sc["parser"].get("env_prefix")
     for var, txt in env.items():
-        if var == "APP_CFG":
+        if var == env_name(prefix, "cfg"):
             if txt.lstrip().startswith("{"):
                 d = load_doc(txt)
             else:
@@ -276,7 +287,7 @@ def env_sources(sc, env, cwd):
             if d is not None:
                 cfgsrc.append(("cfg", d))
     for key in KEYS:
-        var = "APP_" + key.replace(".", "__").upper()
+        var = env_name(prefix, key)
         if var in env:
             t = KEYS[key][0]
             txt = env[var]
@@ -420,7 +431,10 @@ VARIANTS = ["env-config-append-as-assign", "dcf-all-dropped", "dcf-duplicates-dr
 
 def build_parser(sc):
     args = [{"k": "cfg"}] + [{"k": "arg", "name": k, "type": t, "default": copy.deepcopy(d)} for k, (t, d) in KEYS.items()]
-    return zoo.build({"opts": {"exit_on_error": False, "default_env": sc["parser"]["default_env"], "default_config_files": list(sc["parser"]["dcf"])}, "args": args})
+    opts = {"exit_on_error": False, "default_env": sc["parser"]["default_env"], "default_config_files": list(sc["parser"]["dcf"])}
+    if sc["parser"].get("env_prefix") is not None:
+        opts["env_prefix"] = sc["parser"]["env_prefix"]
+    return zoo.build({"opts": opts, "args": args})
 
 
 def run_method(p, sc):
